@@ -88,7 +88,7 @@ func NewWorkerGroup[T any](workers int, queue int) *WorkerGroup[T] {
 		maxWorkers:       workers,
 		workers:          make(chan *worker[T], workers),
 		queue:            &Queue[GroupedItem[T]]{},
-		input:            make(chan GroupedItem[T], 1),
+		input:            make(chan GroupedItem[T]),
 		chInputNotify:    make(chan struct{}, 1),
 		resultData:       map[int][]WorkItemResult[T]{},
 		resultNotify:     map[int]chan struct{}{},
